@@ -1,5 +1,8 @@
-from contracts import fresh, views_cache, views_build
+from contracts import fresh, views_cache, store
 
 def build(tier):
     ts = fresh.targets(tier) + [t for t in views_cache.targets(tier) if "CacheMeta" in t.id]
+    # what a record says about its source is what write_cache put there (the stat snapshot taken when the
+    # source was read and hashed, the hash of the bytes written): same target as in C04
+    ts += store.protocol_targets()
     return dict(targets=ts, assumptions=[], trusted_base=[])
